@@ -221,7 +221,10 @@ ssize_t sendfile_n(ISocketStream* out_stream,
 
 bool ISocketStream::skip_read(size_t count) {
     static char buf[1024];
-    return DOIO_LOOP(read(buf, std::min(count, sizeof(buf))), BufStep(count));
+    // (the loop returns the bytes read so far on EOF and -1 on an error:
+    // neither is a success unless everything has been skipped)
+    DOIO_LOOP(read(buf, std::min(count, sizeof(buf))), BufStep(count));
+    return count == 0;
 }
 
 ssize_t ISocketStream::recv_at_least(void* buf, size_t count, size_t least, int flags) {
